@@ -176,7 +176,7 @@ func c04Recipient(rt *rapid.T, tc *twoChain) string {
 
 func TestC04Rapid(t *testing.T) {
 	rec := evid.For("C04")
-	runRapid(t, 300, 4000, func(rt *rapid.T) {
+	runRapid(t, 600, 6000, func(rt *rapid.T) {
 		c := rec.Begin()
 		w := newC04World()
 		tc := w.tc
